@@ -1,7 +1,428 @@
-(* proofs about MonC01 (the product invariant is in InvC01*.v) *)
+(* MonC01Proofs - every handler of the engine automaton is matched by a step of the C01 monitor that keeps the
+   product relation R (InvC01.v); with eps_R (InvC01Plan.v) and the product rule of AutoLemmas.v this gives
+   c01_order_and_gates: the monitor holds on every trace the automaton accepts. *)
+From Coq Require Import Lia.
 From Coercion.Base Require Import Plan.
-From Coercion.Engine Require Import Shape Event Accept.
-From Coercion.C01 Require Import MonC01.
+From Coercion.Engine Require Import Shape Event Action ChecksRun Seq Block Final PlanSM Auto Accept AutoLemmas.
+From Coercion.C01 Require Import MonC01 InvC01 InvC01Scope InvC01Block InvC01Eps InvC01Late InvC01Plan.
 
-Lemma mon_order_nil sh : mon_order (sh, []) = true.
-Proof. reflexivity. Qed.
+(* ---- the monitor's own moves ---- *)
+Lemma enter_spec sh m b :
+  m_ptail m = 0 -> m_cur m <= b ->
+  exists m1, enter sh m b = Good m1 /\ m_cur m1 = b /\ m_blk m1 = view sh m b
+             /\ m_ptail m1 = m_ptail m /\ m_ppre m1 = m_ppre m /\ m_pcont m1 = m_pcont m.
+Proof.
+  intros E0 Hle. unfold enter, need. rewrite E0. simpl.
+  replace (m_cur m <=? b) with true by (symmetry; now apply Nat.leb_le).
+  unfold view. destruct (Nat.eqb b (m_cur m)) eqn:E.
+  - apply Nat.eqb_eq in E. exists m. repeat split; auto.
+  - exists (at_block sh m b). repeat split; auto.
+Qed.
+
+Lemma cur_block_spec sh s b bs :
+  cur_block sh s b = Some bs -> s_ph s = PBlocks /\ b = s_cb s /\ block_of sh (s_cb s) = Some bs.
+Proof.
+  unfold cur_block. destruct (pphase_eqb (s_ph s) PBlocks && Nat.eqb b (s_cb s)) eqn:E; [|discriminate].
+  apply andb_true_iff in E as [E1 E2]. apply Nat.eqb_eq in E2. subst b. intro H. repeat split; auto.
+  destruct (s_ph s); simpl in E1; congruence.
+Qed.
+
+Lemma owes_false l a : owes l a = false -> ~ In a l.
+Proof.
+  unfold owes. intros H Hin. assert (existsb (aref_eqb a) l = true); [|congruence].
+  apply existsb_exists. exists a. split; auto. now apply aref_eqb_eq.
+Qed.
+
+(* the plan's continuous thread is live only while its post group has no open run *)
+Lemma thr_keep (th : thr) t g x :
+  (thr_live th = true -> g_is_idle (t_post t) = true) ->
+  (g = GPost -> g_is_idle (tget t g) = false \/ g_is_idle x = true \/ thr_live th = false) ->
+  thr_live th = true -> g_is_idle (t_post (tset t g x)) = true.
+Proof.
+  intros H Hg Hl. destruct g; simpl; auto. destruct (Hg eq_refl) as [Ho|[Ho|Ho]]; auto.
+  - simpl in Ho. rewrite (H Hl) in Ho. discriminate.
+  - congruence.
+Qed.
+
+Lemma note_false_pre g i l : note_pre g i false l = l.
+Proof. now destruct g. Qed.
+Lemma note_false_cont g i l : note_cont g i false l = l.
+Proof. now destruct g. Qed.
+
+Section Handlers.
+  Variable sh : shape.
+  Notation R := (R sh).
+
+  (* ================================================================== EvStart *)
+  Lemma start_R s m a s' : R s m -> h_start sh s a = Some s' -> exists m', on_start sh m a = Good m' /\ R s' m'.
+  Proof.
+    unfold h_start. intros HR H. destruct (owes (s_late s) a) eqn:Eo; [discriminate|].
+    destruct a as [[|b] g i|b q i].
+    - (* a check action of the plan *)
+      unfold p_chk_start in H.
+      destruct (g_start (tget (s_g s) g) i (iget (s_img s) (OAct (AChk SPlan g i)))) as [x|] eqn:Es; [|discriminate].
+      injection H as <-. unfold InvC01.R in *. pose proof HR as [HS Hthr _ _ _ _ _].
+      destruct (RS_plugin _ _ _ _ _ _ _ _ _ g x i false HS) as (t & Ht & HS').
+      + eapply g_start_open; eauto.
+      + destruct (tget (s_g s) g); simpl in Es; [discriminate|].
+        destruct (nth_error acts i); [|discriminate]. destruct (a_start a _); [|discriminate].
+        destruct (acts_marked acts); [|discriminate]. now injection Es as <-.
+      + intros n l. eapply g_start_gate; eauto.
+      + simpl. unfold plan_chk. rewrite Ht. exists (with_ptail m t). split; auto.
+        eapply RP_scope with (1 := HR); [reflexivity|reflexivity|simpl|simpl|auto].
+        * rewrite note_false_pre, note_false_cont in HS'. exact HS'.
+        * apply thr_keep; auto. intros ->. left. eapply g_start_open; eauto.
+    - (* a check action of a block *)
+      destruct (cur_block sh s b) as [bs|] eqn:Ec; [|discriminate].
+      apply cur_block_spec in Ec as (Eph & -> & Ebs).
+      destruct (b_chk_start (s_img s) (s_cb s) (s_b s) g i) as [b'|] eqn:Es; [|discriminate]. injection H as <-.
+      unfold InvC01.R in *. rewrite Eph in *.
+      destruct (enter_spec sh m (s_cb s) (RP_tail0 _ _ _ _ _ _ _ _ HR eq_refl) (rp_cur _ _ _ _ _ _ _ _ HR))
+        as (m1 & Hen & M1 & M2 & M3 & M4 & M5).
+      destruct (RB_chk_start _ _ _ _ _ _ _ _ _ (rp_blk _ _ _ _ _ _ _ _ HR) Es) as (t & Ht & HB').
+      simpl. unfold block_chk. rewrite Hen. simpl. rewrite M2, Ht.
+      eexists. split; [reflexivity|]. simpl. rewrite Eph.
+      eapply RP_block; eauto. exact (rp_ahead _ _ _ _ _ _ _ _ HR).
+    - (* an action of a sequence *)
+      destruct (cur_block sh s b) as [bs|] eqn:Ec; [|discriminate].
+      apply cur_block_spec in Ec as (Eph & -> & Ebs).
+      destruct (b_act_start (s_img s) (s_cb s) (s_b s) q i) as [b'|] eqn:Es; [|discriminate]. injection H as <-.
+      unfold InvC01.R in *. rewrite Eph in *.
+      destruct (enter_spec sh m (s_cb s) (RP_tail0 _ _ _ _ _ _ _ _ HR eq_refl) (rp_cur _ _ _ _ _ _ _ _ HR))
+        as (m1 & Hen & M1 & M2 & M3 & M4 & M5).
+      destruct (RB_act_start _ _ _ _ _ _ _ _ _ (rp_blk _ _ _ _ _ _ _ _ HR) Es (owes_false _ _ Eo))
+        as (T0 & P1 & P2 & mq & mq' & Hn & Hq & HB').
+      pose proof (RP_pass _ _ _ _ _ _ _ _ HR eq_refl) as PP.
+      simpl. rewrite Hen. simpl. unfold need. rewrite M2, T0. simpl.
+      assert (G1 : plan_gates_ok sh m1 = true) by (unfold plan_gates_ok in *; now rewrite M4, M5).
+      assert (G2 : block_gates_ok sh m1 = true) by (unfold block_gates_ok; now rewrite M1, M2, P1, P2).
+      rewrite G1, G2. simpl. rewrite Hn, Hq.
+      eexists. split; [reflexivity|]. simpl. rewrite Eph.
+      eapply RP_block; eauto. exact (rp_ahead _ _ _ _ _ _ _ _ HR).
+  Qed.
+
+  (* ================================================================== EvEnd, taken by a sub-automaton *)
+  Lemma end_sub_R s m a o s' :
+    R s m -> h_end_sub sh s a o = Some s' -> exists m', on_end sh m a o = Good m' /\ R s' m'.
+  Proof.
+    unfold h_end_sub. intros HR H. destruct a as [[|b] g i|b q i].
+    - (* a check action of the plan *)
+      unfold p_chk_end in H.
+      destruct (g_end (tget (s_g s) g) i o) as [x|] eqn:Es; [|discriminate].
+      injection H as <-. unfold InvC01.R in *. pose proof HR as [HS Hthr _ _ _ _ _].
+      assert (Hth : thr_live (s_thr s) = true -> g_is_idle (t_post (tset (s_g s) g x)) = true).
+      { apply thr_keep; auto. intros ->. left. eapply g_end_open; eauto. }
+      unfold on_end. destruct (is_overrun o) eqn:Eov.
+      + (* overrun: the monitor does not move *)
+        exists m. split; auto. simpl.
+        eapply RP_scope with (1 := HR); [reflexivity|reflexivity| |exact Hth|auto].
+        eapply RS_keep; eauto.
+        * intros n l Hg. destruct o; try discriminate. exact (g_end_gate n _ _ _ _ l Es Hg).
+        * intros _. eapply g_end_open; eauto.
+      + destruct (RS_plugin _ _ _ _ _ _ _ _ _ g x i (outcome_ok o) HS) as (t & Ht & HS').
+        * eapply g_end_open; eauto.
+        * eapply g_end_keeps_open; eauto.
+        * intros n l. eapply g_end_gate; eauto.
+        * unfold plan_chk. rewrite Ht. simpl.
+          eexists. split; [reflexivity|]. simpl.
+          eapply RP_scope with (1 := HR); [| | |exact Hth|auto].
+          -- destruct (outcome_ok o); destruct g; reflexivity.
+          -- destruct (outcome_ok o); destruct g; reflexivity.
+          -- destruct (outcome_ok o); destruct g; exact HS'.
+    - (* a check action of a block *)
+      destruct (cur_block sh s b) as [bs|] eqn:Ec; [|discriminate].
+      apply cur_block_spec in Ec as (Eph & -> & Ebs).
+      destruct (b_chk_end (s_b s) g i o) as [b'|] eqn:Es; [|discriminate]. injection H as <-.
+      unfold InvC01.R in *. rewrite Eph in *.
+      unfold on_end. destruct (is_overrun o) eqn:Eov.
+      + exists m. split; auto. simpl. rewrite Eph. destruct o; try discriminate.
+        eapply RP_silent; eauto. eapply RB_chk_end_overrun; eauto. exact (rp_blk _ _ _ _ _ _ _ _ HR).
+      + destruct (enter_spec sh m (s_cb s) (RP_tail0 _ _ _ _ _ _ _ _ HR eq_refl) (rp_cur _ _ _ _ _ _ _ _ HR))
+          as (m1 & Hen & M1 & M2 & M3 & M4 & M5).
+        destruct (RB_chk_end _ _ _ _ _ _ _ _ _ (rp_blk _ _ _ _ _ _ _ _ HR) Es) as (t & Ht & HB').
+        unfold block_chk. rewrite Hen. simpl. rewrite M2, Ht. simpl.
+        eexists. split; [reflexivity|]. simpl. rewrite Eph.
+        eapply RP_block with (1 := HR); auto.
+        * destruct (outcome_ok o); simpl; auto.
+        * destruct (outcome_ok o); simpl; auto.
+        * destruct (outcome_ok o); simpl; auto.
+        * destruct (outcome_ok o); simpl; auto.
+        * destruct (outcome_ok o); simpl; exact HB'.
+        * exact (rp_ahead _ _ _ _ _ _ _ _ HR).
+    - (* an action of a sequence *)
+      destruct (cur_block sh s b) as [bs|] eqn:Ec; [|discriminate].
+      apply cur_block_spec in Ec as (Eph & -> & Ebs).
+      destruct (b_act_end (s_b s) q i o) as [b'|] eqn:Es; [|discriminate]. injection H as <-.
+      unfold InvC01.R in *. rewrite Eph in *.
+      destruct (RB_act_end _ _ _ _ _ _ _ _ _ (rp_blk _ _ _ _ _ _ _ _ HR) Es) as (T0 & mq & mq' & Hn & Hq & HB').
+      unfold on_end. destruct (is_overrun o) eqn:Eov.
+      + destruct (Nat.eqb (s_cb s) (m_cur m)) eqn:Ecur.
+        * apply Nat.eqb_eq in Ecur. rewrite Ecur, view_cur in *.
+          unfold seq_end. rewrite Hn, Hq. eexists. split; [reflexivity|]. simpl. rewrite Eph, Ecur.
+          eapply RP_block with (1 := HR); auto.
+          exact (rp_ahead _ _ _ _ _ _ _ _ HR).
+        * exfalso. apply Nat.eqb_neq in Ecur. pose proof (rp_cur _ _ _ _ _ _ _ _ HR) as Hle.
+          rewrite view_ahead in Hn by lia. simpl in Hn. apply nth_repeat in Hn. subst mq. discriminate.
+      + destruct (enter_spec sh m (s_cb s) (RP_tail0 _ _ _ _ _ _ _ _ HR eq_refl) (rp_cur _ _ _ _ _ _ _ _ HR))
+          as (m1 & Hen & M1 & M2 & M3 & M4 & M5).
+        rewrite Hen. simpl. unfold need. rewrite M2, T0. simpl.
+        unfold seq_end. rewrite M1, M2, Hn, Hq. eexists. split; [reflexivity|]. simpl. rewrite Eph.
+        eapply RP_block with (1 := HR); auto. exact (rp_ahead _ _ _ _ _ _ _ _ HR).
+  Qed.
+  (* ================================================================== EvEnd _ OOverrun of an attempt the engine had timed out *)
+  Lemma end_late_R s m a l' :
+    R s m -> remove_one a (s_late s) = Some l' ->
+    exists m', on_end sh m a OOverrun = Good m' /\ R (with_late s l') m'.
+  Proof.
+    intros HR Hr. unfold InvC01.R in *. simpl. unfold on_end. simpl.
+    destruct a as [sc g i|b q i].
+    - exists m. split; auto. apply RP_late_all with (late := s_late s); [|exact HR].
+      intros b' s0. eapply owed_of_remove_other; eauto.
+    - pose proof (remove_one_in _ _ _ Hr) as Hin.
+      pose proof (RP_owed_phase _ _ _ _ _ _ _ _ _ _ _ HR Hin) as Hc.
+      pose proof (rp_cur _ _ _ _ _ _ _ _ HR) as Hle.
+      assert (Hoth : forall b' s0, b' <> b -> owed_of l' b' s0 = owed_of (s_late s) b' s0).
+      { intros b' s0 Hne. eapply owed_of_remove_other; eauto. apply owed_one_other. intro E. injection E as E _. auto. }
+      destruct (Nat.eqb b (m_cur m)) eqn:Eb.
+      + apply Nat.eqb_eq in Eb. subst b.
+        destruct (Nat.eq_dec (m_cur m) (s_cb s)) as [Ecur|Ecur].
+        * (* the monitor is at the automaton's block *)
+          pose proof (rp_blk _ _ _ _ _ _ _ _ HR) as HB. rewrite <- Ecur, view_cur in HB.
+          destruct (RB_late_end _ _ _ _ _ _ _ _ HB Hr) as (mq & mq' & Hn & Hq & HB').
+          unfold seq_end. rewrite Hn, Hq. eexists. split; [reflexivity|].
+          eapply RP_block with (1 := HR); auto.
+          -- simpl. rewrite <- Ecur. exact HB'.
+          -- intros b'' s0 Hlt. rewrite Hoth by lia. apply (rp_ahead _ _ _ _ _ _ _ _ HR). lia.
+        * (* the automaton has left the monitor's block *)
+          assert (Hlt : m_cur m < s_cb s) by lia.
+          destruct (stale_end (seq_rs sh (m_cur m) q) _ _ _ _ _ _ (rp_stale _ _ _ _ _ _ _ _ HR Hlt) Hr)
+            as (mq & mq' & Hn & Hq & HL').
+          unfold seq_end. rewrite Hn, Hq. eexists. split; [reflexivity|].
+          unfold k_with_seq. apply RP_stale_upd with (late := s_late s); auto.
+      + exists m. split; auto. apply Nat.eqb_neq in Eb.
+        destruct (Nat.eq_dec b (s_cb s)) as [->|Ecb].
+        * (* impossible: a block the monitor has not reached has no owed return *)
+          exfalso. pose proof (RB_stale _ _ _ _ _ (rp_blk _ _ _ _ _ _ _ _ HR) q) as HL.
+          rewrite view_ahead in HL by lia. apply owed_of_in in Hin. unfold late_ok in HL.
+          destruct (owed_of (s_late s) (s_cb s) q) as [|j [|]]; try contradiction.
+          destruct HL as (k0 & HL). simpl in HL. apply nth_repeat in HL. discriminate.
+        * apply RP_late_some with (late := s_late s); auto.
+          intros b' s0 Hb. apply Hoth. destruct Hb as [->|[->|Hb]]; auto.
+          intros ->. pose proof (rp_ahead _ _ _ _ _ _ _ _ HR b q Hb) as E. apply owed_of_in in Hin. rewrite E in Hin. contradiction.
+  Qed.
+  (* ================================================================== EvWrite: the monitor does not move *)
+  Lemma p_may_post s : p_may_start s GPost = true -> pphase_code (s_ph s) = 4 /\ thr_live (s_thr s) = false.
+  Proof.
+    simpl. destruct (s_ph s); simpl; try discriminate. destruct (thr_live (s_thr s)); simpl; try discriminate. auto.
+  Qed.
+  Lemma p_may_deferred s : p_may_start s GDeferred = true -> pphase_code (s_ph s) = 5.
+  Proof. simpl. destruct (s_ph s); simpl; try discriminate. auto. Qed.
+
+  (* a handler of plan group g that is no plugin event and opens no run *)
+  Lemma plan_keep s m g x :
+    R s m ->
+    (forall n l, gate_rel n (tget (s_g s) g) l -> gate_rel n x l) ->
+    (g_is_idle x = false -> g_is_idle (tget (s_g s) g) = false) ->
+    R (with_g s (tset (s_g s) g x)) m.
+  Proof.
+    intros HR Hg Hi. unfold InvC01.R in *. simpl. pose proof HR as [HS Hthr _ _ _ _ _].
+    eapply RP_scope with (1 := HR); [reflexivity|reflexivity| | |auto].
+    - eapply RS_keep; eauto.
+    - apply thr_keep; auto. intros ->. simpl in *. destruct (g_is_idle x); auto.
+  Qed.
+
+  Lemma owe_chk_R s m sc g i owed : R s m -> R (owe s (AChk sc g i) owed) m.
+  Proof.
+    intro HR. unfold owe. destruct owed; auto. unfold InvC01.R in *. simpl.
+    apply RP_late_all with (late := s_late s); auto.
+  Qed.
+
+  Lemma write_act_R s m a stt n lastok s1 : R s m -> h_write_act sh s a stt n lastok = Some s1 -> R s1 m.
+  Proof.
+    intros HR H. unfold h_write_act in H.
+    destruct stt; try discriminate.
+    - destruct n as [|n'].
+      + (* (Running, 0): mark *)
+        destruct lastok; [discriminate|]. destruct a as [[|b] g i|b q i].
+        * unfold p_chk_mark in H. destruct (grp_get (sh_groups sh) g) as [rs|] eqn:Eg; [|discriminate].
+          destruct (g_mark rs (p_may_start s g) (ist (s_img s) (OChecks SPlan g)) (tget (s_g s) g) i) as [x|] eqn:Em; [|discriminate].
+          injection H as <-. unfold InvC01.R in *. simpl. pose proof HR as [HS Hthr _ _ _ _ _].
+          eapply RP_scope with (1 := HR); [reflexivity|reflexivity| | |auto].
+          -- eapply RS_mark; eauto.
+             ++ intros ->. symmetry. now apply nacts_plan.
+             ++ intros ->. symmetry. now apply nacts_plan.
+             ++ intros Hm ->. now apply p_may_post.
+             ++ intros Hm ->. now apply p_may_deferred.
+             ++ intros ->. rewrite has_plan, Eg. reflexivity.
+             ++ intros ->. rewrite has_plan, Eg. reflexivity.
+          -- apply thr_keep; auto. intros ->. destruct (g_mark_idle _ _ _ _ _ _ Em) as [Ho|Hm]; auto.
+             right. right. now apply p_may_post.
+        * destruct (cur_block sh s b) as [bs|] eqn:Ec; [|discriminate].
+          apply cur_block_spec in Ec as (Eph & -> & Ebs).
+          destruct (b_chk_mark bs (s_img s) (s_cb s) (s_b s) g i) as [b'|] eqn:Es; [|discriminate]. injection H as <-.
+          unfold InvC01.R in *. simpl. rewrite Eph in *. eapply RP_silent; eauto.
+          eapply RB_chk_mark; eauto. exact (rp_blk _ _ _ _ _ _ _ _ HR).
+        * destruct (cur_block sh s b) as [bs|] eqn:Ec; [|discriminate].
+          apply cur_block_spec in Ec as (Eph & -> & Ebs).
+          destruct (b_act_mark (s_b s) q i) as [b'|] eqn:Es; [|discriminate]. injection H as <-.
+          unfold InvC01.R in *. simpl. rewrite Eph in *. eapply RP_silent; eauto.
+          eapply RB_act_mark; eauto. exact (rp_blk _ _ _ _ _ _ _ _ HR).
+      + (* (Running, n >= 1): the record of an attempt *)
+        destruct a as [[|b] g i|b q i].
+        * destruct (p_chk_attempt sh s g i (S n') lastok) as [[s2 owed]|] eqn:Ea; [|discriminate]. injection H as <-.
+          apply owe_chk_R. unfold p_chk_attempt in Ea.
+          destruct (grp_get (sh_groups sh) g) as [rs|]; [|discriminate].
+          destruct (g_attempt rs (tget (s_g s) g) i (S n') lastok) as [[x ow]|] eqn:Eg; [|discriminate].
+          injection Ea as <- <-. apply plan_keep; auto.
+          -- intros n l. eapply g_attempt_gate; eauto.
+          -- intros _. eapply g_attempt_open; eauto.
+        * destruct (cur_block sh s b) as [bs|] eqn:Ec; [|discriminate].
+          apply cur_block_spec in Ec as (Eph & -> & Ebs).
+          destruct (b_chk_attempt bs (s_b s) g i (S n') lastok) as [[b' owed]|] eqn:Es; [|discriminate]. injection H as <-.
+          pose proof (RB_chk_attempt _ _ _ _ _ _ _ _ _ _ _ _ (rp_blk _ _ _ _ _ _ _ _ HR) Es) as HB'.
+          unfold InvC01.R in *. unfold owe. rewrite Eph in *. destruct owed; simpl; rewrite Eph; eapply RP_silent; eauto.
+        * destruct (cur_block sh s b) as [bs|] eqn:Ec; [|discriminate].
+          apply cur_block_spec in Ec as (Eph & -> & Ebs).
+          destruct (b_act_attempt bs (s_b s) q i (S n') lastok) as [[b' owed]|] eqn:Es; [|discriminate]. injection H as <-.
+          pose proof (RB_act_attempt _ _ _ _ _ _ _ _ _ _ _ _ Ebs (rp_blk _ _ _ _ _ _ _ _ HR) Es) as HB'.
+          unfold InvC01.R in *. unfold owe. rewrite Eph in *. destruct owed; simpl; rewrite Eph; eapply RP_silent; eauto.
+          intros b'' s0 Hne. rewrite owed_of_cons, owed_one_other; auto. intro E. injection E as E _. auto.
+    - (* Completed *)
+      destruct a as [[|b] g i|b q i].
+      + unfold p_chk_final in H. destruct (g_final (tget (s_g s) g) i Completed n lastok) as [x|] eqn:Eg; [|discriminate].
+        injection H as <-. apply plan_keep; auto.
+        * intros n0 l. eapply g_final_gate; eauto.
+        * intros _. eapply g_final_open; eauto.
+      + destruct (cur_block sh s b) as [bs|] eqn:Ec; [|discriminate].
+        apply cur_block_spec in Ec as (Eph & -> & Ebs).
+        destruct (b_chk_final (s_b s) g i Completed n lastok) as [b'|] eqn:Es; [|discriminate]. injection H as <-.
+        unfold InvC01.R in *. simpl. rewrite Eph in *. eapply RP_silent; eauto.
+        eapply RB_chk_final; eauto. exact (rp_blk _ _ _ _ _ _ _ _ HR).
+      + destruct (cur_block sh s b) as [bs|] eqn:Ec; [|discriminate].
+        apply cur_block_spec in Ec as (Eph & -> & Ebs).
+        destruct (b_act_final bs (s_b s) q i Completed n lastok) as [b'|] eqn:Es; [|discriminate]. injection H as <-.
+        unfold InvC01.R in *. simpl. rewrite Eph in *. eapply RP_silent; eauto.
+        eapply RB_act_final; eauto. exact (rp_blk _ _ _ _ _ _ _ _ HR).
+    - (* Failed *)
+      destruct a as [[|b] g i|b q i].
+      + unfold p_chk_final in H. destruct (g_final (tget (s_g s) g) i Failed n lastok) as [x|] eqn:Eg; [|discriminate].
+        injection H as <-. apply plan_keep; auto.
+        * intros n0 l. eapply g_final_gate; eauto.
+        * intros _. eapply g_final_open; eauto.
+      + destruct (cur_block sh s b) as [bs|] eqn:Ec; [|discriminate].
+        apply cur_block_spec in Ec as (Eph & -> & Ebs).
+        destruct (b_chk_final (s_b s) g i Failed n lastok) as [b'|] eqn:Es; [|discriminate]. injection H as <-.
+        unfold InvC01.R in *. simpl. rewrite Eph in *. eapply RP_silent; eauto.
+        eapply RB_chk_final; eauto. exact (rp_blk _ _ _ _ _ _ _ _ HR).
+      + destruct (cur_block sh s b) as [bs|] eqn:Ec; [|discriminate].
+        apply cur_block_spec in Ec as (Eph & -> & Ebs).
+        destruct (b_act_final bs (s_b s) q i Failed n lastok) as [b'|] eqn:Es; [|discriminate]. injection H as <-.
+        unfold InvC01.R in *. simpl. rewrite Eph in *. eapply RP_silent; eauto.
+        eapply RB_act_final; eauto. exact (rp_blk _ _ _ _ _ _ _ _ HR).
+  Qed.
+  Lemma write_obj_R s m o stt n lastok r s1 : R s m -> h_write_obj sh s o stt n lastok r = Some s1 -> R s1 m.
+  Proof.
+    intros HR H. unfold h_write_obj in H. destruct o as [|[|b] g|b|b q|a].
+    - (* the plan *)
+      destruct (p_write sh s stt r) as [s2|] eqn:Ep; [|discriminate]. injection H as <-.
+      unfold p_write in Ep. destruct (s_ph s); try discriminate; case_if Ep; injection Ep as <-; exact HR.
+    - (* verdict of a plan group *)
+      assert (Hv : forall st, p_chk_verdict s g st = Some s1 -> R s1 m).
+      { intros st Hs. unfold p_chk_verdict, g_verdict in Hs.
+        destruct (g_close (tget (s_g s) g) st) as [x|] eqn:Ec; [|discriminate]. injection Hs as <-.
+        apply plan_keep; auto.
+        - intros n0 l. eapply g_close_gate; eauto.
+        - intro Hx. apply g_close_idle in Ec. congruence. }
+      destruct stt; try discriminate; eauto.
+    - (* verdict of a block group *)
+      destruct stt; try discriminate;
+        (destruct (cur_block sh s b) as [bs|] eqn:Ec; [|discriminate];
+         apply cur_block_spec in Ec as (Eph & -> & Ebs);
+         destruct (b_chk_verdict (s_b s) g _) as [b'|] eqn:Es; [|discriminate]; injection H as <-;
+         unfold InvC01.R in *; simpl; rewrite Eph in *; eapply RP_silent; eauto;
+         eapply RB_chk_verdict; eauto; exact (rp_blk _ _ _ _ _ _ _ _ HR)).
+    - (* a block *)
+      destruct (cur_block sh s b) as [bs|] eqn:Ec; [|discriminate].
+      apply cur_block_spec in Ec as (Eph & -> & Ebs).
+      destruct (b_write (s_b s) stt) as [b'|] eqn:Es; [|discriminate]. injection H as <-.
+      unfold InvC01.R in *. simpl. rewrite Eph in *. eapply RP_silent; eauto.
+      eapply RB_write; eauto. exact (rp_blk _ _ _ _ _ _ _ _ HR).
+    - (* a sequence *)
+      destruct (cur_block sh s b) as [bs|] eqn:Ec; [|discriminate].
+      apply cur_block_spec in Ec as (Eph & -> & Ebs).
+      destruct stt; try discriminate.
+      + destruct (b_seq_launch bs (s_b s) q) as [b'|] eqn:Es; [|discriminate]. injection H as <-.
+        unfold InvC01.R in *. simpl. rewrite Eph in *. eapply RP_silent; eauto.
+        eapply RB_seq_launch; eauto. exact (rp_blk _ _ _ _ _ _ _ _ HR).
+      + destruct (b_seq_terminal (s_b s) q Completed) as [b'|] eqn:Es; [|discriminate]. injection H as <-.
+        unfold InvC01.R in *. simpl. rewrite Eph in *. eapply RP_silent; eauto.
+        eapply RB_seq_terminal; eauto. exact (rp_blk _ _ _ _ _ _ _ _ HR).
+      + destruct (b_seq_terminal (s_b s) q Failed) as [b'|] eqn:Es; [|discriminate]. injection H as <-.
+        unfold InvC01.R in *. simpl. rewrite Eph in *. eapply RP_silent; eauto.
+        eapply RB_seq_terminal; eauto. exact (rp_blk _ _ _ _ _ _ _ _ HR).
+    - eapply write_act_R; eauto.
+  Qed.
+
+  Lemma write_R s m o stt n lastok r s' : R s m -> h_write sh s o stt n lastok r = Some s' -> R s' m.
+  Proof.
+    intros HR H. unfold h_write in H. destruct (negb (obj_in_shape sh o)); [discriminate|].
+    assert (Hw : forall x, option_map (fun s1 => put s1 o stt n lastok) (h_write_obj sh s o stt n lastok r) = Some x -> R x m).
+    { intros x Hx. destruct (h_write_obj sh s o stt n lastok r) as [s1|] eqn:E; [|discriminate].
+      injection Hx as <-. exact (write_obj_R _ _ _ _ _ _ _ _ HR E). }
+    destruct o; try (destruct n; [destruct lastok|]; try discriminate); eauto.
+  Qed.
+
+  (* ================================================================== the product rule's premises *)
+  Lemma h_R s m e s' : R s m -> handle sh s e = Some s' -> exists m', mon_step sh m e = Some m' /\ R s' m'.
+  Proof.
+    intros HR H. unfold mon_step, step_d. destruct e as [a|a o|o stt n lastok r|snap|fin]; simpl in H.
+    - destruct (released s); [discriminate|]. destruct (start_R _ _ _ _ HR H) as (m' & -> & HR'). eauto.
+    - unfold h_end in H. destruct (h_end_sub sh s a o) as [s2|] eqn:E.
+      + injection H as <-. destruct (end_sub_R _ _ _ _ _ HR E) as (m' & -> & HR'). eauto.
+      + destruct o; try discriminate. destruct (remove_one a (s_late s)) as [l'|] eqn:Er; [|discriminate].
+        injection H as <-. destruct (end_late_R _ _ _ _ HR Er) as (m' & -> & HR'). eauto.
+    - destruct (released s); [discriminate|]. exists m. split; auto. eapply write_R; eauto.
+    - exists m. split; auto. unfold h_read in H. destruct (s_fin s); [case_if H|]; injection H as <-; exact HR.
+    - exists m. split; auto. unfold h_release in H. case_if H. injection H as <-.
+      unfold InvC01.R in *. simpl. pose proof HR as [HS Hthr _ _ _ _ _].
+      apply andb_true_iff in Heqb as [Hb _]. apply andb_true_iff in Hb as [Hb _].
+      assert (Eph : s_ph s = PEnd) by (destruct (s_ph s); simpl in Hb; congruence). rewrite Eph in *.
+      eapply RP_scope with (1 := HR); [reflexivity|reflexivity| |exact Hthr|simpl; lia].
+      simpl in HS.
+      assert (Hpo : g_is_idle (t_post (s_g s)) = true) by (eapply RS_post_idle; [exact HS | left; lia]).
+      assert (Hde : g_is_idle (t_deferred (s_g s)) = true) by (eapply RS_deferred_idle; [exact HS | left; lia]).
+      penter HS.
+  Qed.
+
+  Lemma stutter_R s m e : R s m -> stutter sh s e = true -> exists m', mon_step sh m e = Some m' /\ R s m'.
+  Proof.
+    intros HR H. destruct e; simpl in H; try discriminate. exists m. split; auto.
+  Qed.
+
+  Lemma R_init : R init (m0 sh).
+  Proof.
+    unfold InvC01.R. split.
+    - apply RS_fresh.
+    - simpl. discriminate.
+    - simpl. lia.
+    - rewrite view_cur. simpl. apply RB_none; auto.
+    - simpl. lia.
+    - reflexivity.
+    - intros _. simpl. repeat split; auto.
+  Qed.
+End Handlers.
+
+(* mon_run is the product rule's mrun *)
+Lemma mon_run_mrun sh m tr : mon_run sh m tr = mrun mst (mon_step sh) m tr.
+Proof. revert m; induction tr as [|e tr IH]; intro m; simpl; auto. destruct (mon_step sh m e); auto. Qed.
+
+Lemma c01_run sh tr s : run sh init tr = Some s -> exists m, mon_run sh (m0 sh) tr = Some m /\ R sh s m.
+Proof.
+  intro H. rewrite mon_run_mrun.
+  exact (product_run mst (mon_step sh) sh (R sh) (eps_R sh) (h_R sh) (stutter_R sh) tr init (m0 sh) s (R_init sh) H).
+Qed.
+
+Lemma c01_order sh tr s : shape_wf sh = true -> run sh init tr = Some s -> mon_order (sh, tr) = true.
+Proof.
+  intros _ H. destruct (c01_run sh tr s H) as (m & Hm & _). unfold mon_order. simpl. now rewrite Hm.
+Qed.
